@@ -410,7 +410,8 @@ class Ref:
             for a in s[2]:
                 at = L.conc(L.typeof(a, env, sc))
                 args.append((self.ev(a, p, sc, at)[0], at))
-            p.effects.append(('log', None, s[1], args))
+            # console.log and console.debug both go to the debug stream (Qt's own mapping)
+            p.effects.append(('log', None, {'log': 'debug'}.get(s[1], s[1]), args))
             p.cv = None
             return [(p, 'normal', None)]
         raise ValueError(s)
